@@ -227,14 +227,15 @@ def late_clause(bat, rng, n):
                 commit_and_apply()             # the release, if any
             keeps = mgr.isAcquired(lc.lock_name(1))
             late = 2 * took > U
+            timely = 2 * took < U              # exactly U/2: the property text decides nothing, the model does
             mgr.destroy()
         if late and (got != [False] or keeps):
             viols.append({"signature": "batteries.ReplLockManager.tryAcquire:late-acquire-kept",
                           "what": "U=%d, acquisition took %d (> U/2): told %r, isAcquired afterwards %r (sync=%r)" % (U, took, got, keeps, sync),
                           "replay": {"kind": "late", "U": U, "took": took, "sync": sync}})
-        if not late and (got != [True] or not keeps):
+        if timely and (got != [True] or not keeps):
             viols.append({"signature": "batteries.ReplLockManager.tryAcquire:timely-acquire-denied",
-                          "what": "U=%d, acquisition of a free lock took %d (<= U/2): told %r, isAcquired afterwards %r (sync=%r)"
+                          "what": "U=%d, acquisition of a free lock took %d (< U/2): told %r, isAcquired afterwards %r (sync=%r)"
                                   % (U, took, got, keeps, sync),
                           "replay": {"kind": "late", "U": U, "took": took, "sync": sync}})
     return viols, n
